@@ -1,9 +1,11 @@
 import PyYetiVerif.Model.Uset
 import PyYetiVerif.Model.UsetUp
 import PyYetiVerif.Model.Locate
+import PyYetiVerif.Model.UsetXyz
 /-! Line protocol for C18.  A request is `op args | section | section …`; sections hold
 space-separated integers (matrix rows are separated by `;`).  Replies: `ok …` with sections
-separated by ` | `, or `value-error` / `index-error` / `key-error`, or `bad-op`.
+separated by ` | `, or `value-error` / `index-error` / `key-error` / `type-error` /
+`recursion-error` (the recursion fuel `selist.length + 1` of upqsetpv is used up), or `bad-op`.
 
   mask a+o+m                                  -> ok <int>
   setpv <major> <minor> | w…                  -> ok 0 1 …        (set spec: names or #<int>)
@@ -15,6 +17,11 @@ separated by ` | `, or `value-error` / `index-error` / `key-error`, or `bad-op`.
   upa <seup> | seup sedn … | se : id dof word … ; … | se : dnid … ; … | se : order scale … ; … | se : upid … ; …
                                                                -> ok pv…          (upasetpv)
   upq <sedn> | (the same five sections)                        -> ok 0 1 …        (upqsetpv)
+  sep | (the same five sections)                               -> ok 1 / ok 0     (separateB: hypothesis of upqsetpv_spec)
+  findse <se> | seup sedn …                                    -> ok row          (_findse)
+  nodeids | id dof word …                                      -> ok id …         (_get_node_ids)
+  xyz <den> <tn> <td> | k k k k k k ; …   (entries k/den, tol = tn/td)   (find_xyz_triples)
+                               -> ok pv… | x y z ; … | scale² … | model_scale   (rationals n/d, nan = unset) / borderline
   dups <tol> | v…              -> ok 0 1 …
   flippv <n> | pv…  /  i2b <n> | pv…
   i2s <strict> | pv…           -> ok slice a b c   (None for an absent field) / ok pv …
@@ -78,6 +85,7 @@ def showL {α} [ToString α] (l : List α) : String := " ".intercalate (l.map to
 def showB (l : List Bool) : String := showL (l.map fun b => if b then 1 else 0)
 def errS : Err → String
   | .value => "value-error" | .index => "index-error" | .key => "key-error" | .type => "type-error"
+  | .recursion => "recursion-error"
 def flat2 (l : List (Nat × Nat)) : List Nat := l.flatMap fun p => [p.1, p.2]
 
 /-- `mkusetmask(str)`: split on '+', every piece must be a key. -/
@@ -147,11 +155,42 @@ def answer (line : String) : String :=
       match se.toNat?, nasOf sl us dn mp up with
       | some se, some nas => reply (upasetpv nas se) showL
       | _, _ => "bad-op"
+  | ["xyz", den, tn, td], [m] =>
+      match den.toNat?, tn.toInt?, td.toNat?, (m.splitOn ";").mapM ints with
+      | some den, some tn, some td, some rows =>
+          if den = 0 ∨ td = 0 ∨ rows.any (fun r => r.length ≠ 6) then "bad-op"
+          else
+            let q := fun (k : Int) => (k : Rat) / (den : Rat)
+            let mk : List Int → Xyz.Row := fun r =>
+              (fun i => q (r.getD i.val 0), fun i => q (r.getD (i.val + 3) 0))
+            let showQ := fun (x : Rat) => s!"{x.num}/{x.den}"
+            match Xyz.findXyzTriples ((tn : Rat) / (td : Rat)) (rows.map mk) with
+            | none => "borderline"
+            | some res =>
+                "ok " ++ showB res.pv ++ " | " ++
+                " ; ".intercalate (res.coords.map fun c => match c with
+                  | some (x, y, z) => s!"{showQ x} {showQ y} {showQ z}" | none => "nan") ++ " | " ++
+                " ".intercalate (res.scale2.map fun c => match c with | some s => showQ s | none => "nan") ++
+                " | " ++ showQ res.modelScale
+      | _, _, _, _ => "bad-op"
+  | ["findse", se], [sl] =>
+      match se.toNat?, (nats sl).bind pairs with
+      | some se, some l => reply (findse l se) toString
+      | _, _ => "bad-op"
+  | ["nodeids"], [tb] =>
+      match (nats tb).bind triples with
+      | some tbl => "ok " ++ showL (nodeIds tbl)
+      | none => "bad-op"
+  | ["sep"], [sl, us, dn, mp, up] =>
+      match nasOf sl us dn mp up with
+      | some nas => "ok " ++ (if separateB (Generated.UsetMask.mask .a) (Generated.UsetMask.mask .q)
+          (Generated.UsetMask.mask .p) nas then "1" else "0")
+      | none => "bad-op"
   | ["upq", se], [sl, us, dn, mp, up] =>
       match se.toNat?, nasOf sl us dn mp up with
       | some se, some nas =>
           let m := Generated.UsetMask.mask
-          reply (upqsetpv (m .a) (m .q) (m .p) nas (nas.selist.length + 2) se) showB
+          reply (upqsetpv (m .a) (m .q) (m .p) nas (nas.selist.length + 1) se) showB
       | _, _ => "bad-op"
   | ["dups", tol], [v] =>
       match tol.toInt?, ints v with
